@@ -430,7 +430,10 @@ class Exec:
             for g in self.ghosts:
                 pass
         for kind, st2, payload in self.exec_block(body, st):
-            if frag and kind in ("fall", "continue"):
+            if frag and kind in ("fall", "continue", "break"):
+                # a fragment taken from a loop body may leave through `break` / `continue`: these are exits of the fragment
+                # like falling off its end; the contract sees which one through the ghost local `fragment_broke`
+                st2.env["fragment_broke"] = BoolV(z3.BoolVal(kind != "fall"))
                 kind, payload = "return", (FragResult(dict(st2.env)), getattr(body[-1], "end_lineno", body[-1].lineno))
             self.finish(kind, st2, payload, fn)
         table = getattr(c.cls, "after", None)
@@ -1882,6 +1885,14 @@ class Exec:
             return z3.And(*[self.equal(x, y, st, node) for x, y in zip(a.items, b.items)]) if a.items else z3.BoolVal(True)
         if isinstance(a, (SeqV, TupV)) and isinstance(b, (SeqV, TupV)):
             ta, tb = self.to_seq(a), self.to_seq(b)
+            if isinstance(a, SeqV) and isinstance(b, SeqV):
+                # equal sequences have equal (prefix) sums: an instance of the prelude lemma eq_sums (proved once per run
+                # by the induction schema), so that code which compares layouts and then relies on their extents verifies
+                # however it is phrased
+                from . import lemmas as L
+                st.pc.append(L.eq_sums(ta, tb))
+                if "eq_sums" not in self.lemmas_used:
+                    self.lemmas_used.append("eq_sums")
             return self.seq_eq(ta, tb)
         if type(a) is not type(b):
             return z3.BoolVal(False)
